@@ -181,8 +181,18 @@ def log_str(ly):
     return ";".join(ent)
 
 
-def run_case(case):
-    """drive the real layers; returns (canonical trace string, oracle failures)"""
+def ev_enc(e):
+    """an event as input for the model's `seq` op (completions carry the whole command name)"""
+    if isinstance(e, events.CommandCompleted):
+        return "k%d.%d.%d.%dr%d" % (*cmd_key(e.command), e.reply or 0)
+    return "p%du%d" % (e._c04label, e._c04uid)
+
+
+def run_case(case, extra=None):
+    """drive the real layers; returns (canonical trace string, oracle failures).
+    kind "seqtie": the string is the FINAL configuration only (total output of the root layer, every layer's paused
+    command / queue / bound handler, every layer's log), and extra["split"] receives the root layer's arrivals split
+    into (events, replies of its own completions) — the inputs of the reference interpreter `seq`."""
     if case.get("prim"):
         return run_prim(case)
     ctx = make_ctx()
@@ -206,6 +216,7 @@ def run_case(case):
     steps_out = []
     top_arrivals = []               # (event, was a completion of the hook the NextLayer was waiting on)
     fails = []
+    root_out = []                   # everything the root layer emitted (NextLayer's own commands excluded)
 
     def snap():
         parts = []
@@ -255,11 +266,18 @@ def run_case(case):
         for c in out:
             emitted.append(c)
             if c.blocking is not False: pending.append(c)
+            if cmd_key(c)[0] != 0: root_out.append(c)
         steps_out.append("[%s]%s" % (";".join(cmd_str(c) for c in out), snap()))
         fails += step_oracle(L, order)
 
     trace = "#".join(steps_out) + "@" + "|".join(log_str(L[i]) for i in order)
     fails += final_oracle(L, order, root, nl, top_arrivals)
+    if case.get("seqtie"):
+        trace = "[%s]%s@%s" % (";".join(cmd_str(c) for c in root_out), "|".join(snap_layer(L[i]) for i in order),
+                               "|".join(log_str(L[i]) for i in order))
+        if extra is not None:
+            extra["split"] = ([ev_enc(e) for (e, own, _) in root.arrivals if not own],
+                              [str(e.reply or 0) for (e, own, _) in root.arrivals if own])
     return trace, fails
 
 
@@ -491,7 +509,10 @@ class Check(PropertyCheck):
                   "events it was passed = arrivals minus consumed hook completions, order kept) and nextlayer_child_sequential; "
                   "the `_any` forms (nextlayer_replay_in_order_any, nextlayer_child_invariant_any, nextlayer_transparent_any) drop "
                   "the former hypothesis that the candidate child has received nothing yet; all_output_never_blocking_true is "
-                  "the whole-history form of emitted_never_blocking_true. Model = Layer.handle_event/__process/__continue, parent relays via "
+                  "the whole-history form of emitted_never_blocking_true; pauses_only_on_own_blocking / oinv_step / lower_blocksOwn / "
+                  "flat_blocksOwn / tree_own_step / tree_layers_pause_only_on_own / nextlayer_tree_pause_only_on_own (in a tree "
+                  "of any shape, also behind a NextLayer, after any schedule every layer has only ever paused on commands carrying "
+                  "its own index: no layer is paused because a descendant blocks). Model = Layer.handle_event/__process/__continue, parent relays via "
                   "`yield from child.handle_event`, NextLayer._handle_event/_ask/handle_event incl. the hand-over. Tie: "
                   "generated handler programs (with handler re-binding actions) run on real Layer subclasses arranged in "
                   "random trees (<=8 layers, height <=4, branching <=3) behind an optional real NextLayer and in the compiled "
@@ -500,16 +521,21 @@ class Check(PropertyCheck):
                   "NextLayer.events/_handle; at the end per layer the _handle_event calls and the values sent into the "
                   "generators. Separately the private primitives Layer.__process / Layer.__continue / queue append are "
                   "called one by one on a real layer (also in states handle_event never produces) against the model's "
-                  "handleFresh / resumeWith / enqueue.")
+                  "handleFresh / resumeWith / enqueue. The reference blocking interpreter `seq` of "
+                  "sequential_blocking_equivalence is itself tied to Python (case kind seqtie, driver op `seq`): a real tree "
+                  "(+ real NextLayer) is driven through handle_event with a schedule, the root layer's arrivals are split by the "
+                  "handler's own view into events and own-completion replies, `seq (HT 3)` is run on that split in the compiled "
+                  "model, and the root's total command output, every layer's final _paused / queue / bound handler and every "
+                  "layer's trace must equal what the real layers ended with.")
     level_note = ("trusted: Lean kernel; Python generator semantics (send/StopIteration/yield from) are the modelled "
                   "primitive; commands yielded by handle_event are consumed completely and non-reentrantly before the "
                   "next event is delivered (what proxy/server.py does); the addon's next-layer decision is modelled as "
                   "part of the hook's reply; proxy_debug logging (Layer.debug, off by default) is not modelled; ghost fields "
                   "log/arrived of the model carry the theorems' vocabulary; the tie is differential (random programs/trees x "
-                  "random/exhaustive schedules), not a proof about the Python text. The blocking-code reading is now a theorem "
-                  "(sequential_blocking_equivalence); its reference interpreter `seq` is a Lean definition (trusted as the "
-                  "meaning of 'sequential blocking code': one handler at a time via `run`, i-th blocking command answered by "
-                  "the i-th reply), not tied to Python separately. "
+                  "random/exhaustive schedules), not a proof about the Python text. The blocking-code reading is a theorem (sequential_blocking_equivalence) "
+                  "and its reference interpreter `seq` (Model/C04.lean) is tied to the real layers differentially (seqtie "
+                  "cases); the split fed to `seq` is taken from the real run (the handler's own view of which completion it was "
+                  "waiting for), as the theorem states it. "
                   "Abstain branches of the harness: a schedule step that names a command when none was emitted/pending "
                   "delivers nothing on both sides ('skip' token, compared); primitive ops whose precondition fails "
                   "(process while paused, continue while idle) are skipped on both sides; no case is ever dropped "
@@ -520,7 +546,8 @@ class Check(PropertyCheck):
             "a schedule of <=40 steps over {plain event, completion of a pending blocking command, completion of any "
             "emitted command (stale / non-blocking / sibling / matching)}; three fixed program sets x all schedules up "
             "to a length first; plus primitive-op sequences (process / queue / continue / handle_event) on one layer, all "
-            "sequences up to a length then random. distinct = distinct (programs, schedule); non-trivial = some layer "
+            "sequences up to a length then random; plus seqtie cases (same trees/schedules, final configuration compared with the reference "
+            "interpreter `seq` on the split of the root's arrivals). distinct = distinct (programs, schedule); non-trivial = some layer "
             "paused and some event was queued.")
     budget = {"quick": 8000, "thorough": 300000}
     time_budget = {"quick": 25, "thorough": 400}
@@ -572,14 +599,23 @@ class Check(PropertyCheck):
             for n in range(1, (4 if tier == "quick" else 6)):
                 for ops in itertools.product(palpha, repeat=n):
                     yield {"prim": 1, "tabs": tabs, "ops": [list(o) for o in ops]}
+        # the reference blocking interpreter `seq` against real runs: small trees x every schedule up to a length
+        for pi in range(len(SMALL_PROGS)):
+            tree = small_tree(pi)
+            for nlf, aos in ((0, 0), (1, 1)):
+                for n in range(1, (4 if tier == "quick" else 6)):
+                    for s in itertools.product(alpha, repeat=n):
+                        yield {"seqtie": 1, "nl": nlf, "aos": aos, "tree": tree, "sched": [list(x) for x in s]}
         while True:
             pblock = rng.choice([0.15, 0.3, 0.5])
             pchild = rng.choice([0.3, 0.6, 0.9])
             tree = rand_tree(rng, pblock, pchild)
             labels = rng.choice([[0, 1, 2, 3, 4, 5, 6], [1, 1, 1, 5, 0], [1, 2, 5, 6]])
             for _ in range(4):
-                yield {"nl": 1 if rng.chance(0.7) else 0, "aos": rng.randint(0, 1), "tree": tree,
-                       "sched": rand_sched(rng, rng.randint(1, 40), labels)}
+                last = {"nl": 1 if rng.chance(0.7) else 0, "aos": rng.randint(0, 1), "tree": tree,
+                        "sched": rand_sched(rng, rng.randint(1, 40), labels)}
+                yield last
+            yield dict(last, seqtie=1)      # same real run, compared with `seq` on the split of the root's arrivals
             nm = rng.choice([1, 2])
             tabs = [rand_table(rng, 0, pblock, 0, nm) for _ in range(nm)]
             yield {"prim": 1, "tabs": tabs,
@@ -595,6 +631,11 @@ class Check(PropertyCheck):
     def model_lines(self, case):
         if case.get("prim"):
             return ["prim %s %s" % (enc_tabs(case["tabs"]), ",".join("%s%d" % (o[0], o[1]) for o in case["ops"]) or "-")]
+        if case.get("seqtie"):
+            extra = {}
+            run_case(case, extra)      # the split is an observation of the real run (deterministic): re-derive it
+            xs, rs = extra["split"]
+            return ["seq %s %s %s" % (enc_tree(case["tree"]), ",".join(xs) or "-", ",".join(rs) or "-")]
         return ["run %d %d %s %s" % (case["nl"], case["aos"], enc_tree(case["tree"]), enc_sched(case["sched"]))]
 
     def model_obs(self, case, replies):
@@ -606,6 +647,8 @@ class Check(PropertyCheck):
     def classify(self, case, obs):
         t = obs["trace"].split("@")[0]
         queued = any((":p" in s or ":k" in s) for s in t.split("#"))
+        if case.get("seqtie"):
+            return ("seqtie", case["nl"], case["aos"], enc_tree(case["tree"]), enc_sched(case["sched"])) if queued else None
         return self.model_lines(case)[0] if queued else None
 
     def branches(self, case, obs):
@@ -615,6 +658,13 @@ class Check(PropertyCheck):
             if ":p" in t: out.append("prim:queued")
             if "skip" in t: out.append("prim:precondition-skip")
             if ":m1" in t: out.append("prim:handler-rebound")
+            return out
+        if case.get("seqtie"):
+            out = ["seqtie", "seqtie:nl" if case["nl"] else "seqtie:no-nl"]
+            root = t.split("]", 1)[1].split("|")[0]
+            out.append("seqtie:root-idle" if root.startswith("-:") else "seqtie:root-blocked")
+            if ":p" in root or ":k" in root: out.append("seqtie:root-has-unstarted-events")
+            if "r" in logs.split("|")[0].replace("r0", ""): out.append("seqtie:root-got-replies")
             return out
         out = ["nl" if case["nl"] else "no-nl", "nodes=%d" % len(case["tree"])]
         depth = {}
